@@ -39,13 +39,15 @@ func (Engine) Scenarios(property string) []string {
 	case "C17":
 		return []string{"disk-escape"}
 	case "C18":
-		return []string{"model-exec"}
+		return []string{"model-exec", "disk-exec"}
 	case "C29":
 		return []string{"lifecycle", "disk-lifecycle"}
 	case "C21":
 		return append(componentScenarios(property), "disk-remote")
 	case "C09":
-		return append(componentScenarios(property), "disk", "disk-remote")
+		return append(componentScenarios(property), "disk", "disk-remote", "disk-fulldev")
+	case "C10":
+		return append(componentScenarios(property), "disk-fulldev")
 	case "C12":
 		return append(componentScenarios(property), "disk", "disk-edits")
 	}
@@ -56,7 +58,7 @@ func (Engine) Generate(property, scenario string, seed uint64, tier string) *sim
 	p := &simkit.Plan{Engine: "syncsim", Scenario: scenario, Property: property, Seed: seed, Cfg: map[string]int64{}}
 	r := simkit.NewRand(seed, 1)
 	switch scenario {
-	case "model", "model-untracked", "model-outcomes", "model-outcomes-enum", "model-halt", "model-exec", "lifecycle", "disk", "disk-untracked", "disk-halt", "disk-escape", "disk-lifecycle", "disk-edits", "disk-remote":
+	case "model", "model-untracked", "model-outcomes", "model-outcomes-enum", "model-halt", "model-exec", "lifecycle", "disk", "disk-untracked", "disk-halt", "disk-escape", "disk-lifecycle", "disk-edits", "disk-remote", "disk-fulldev", "disk-exec":
 		genModel(p, r, tier)
 	case "links-scan", "links-mixed":
 		genLinks(p, r, tier)
@@ -70,7 +72,7 @@ func (Engine) Execute(t *testing.T, plan *simkit.Plan) *simkit.Result {
 	switch plan.Scenario {
 	case "model-outcomes-enum":
 		return execOutcomeEnumeration(t, plan)
-	case "model", "model-untracked", "model-outcomes", "model-halt", "model-exec", "lifecycle", "disk", "disk-untracked", "disk-halt", "disk-escape", "disk-lifecycle", "disk-edits", "disk-remote", "links-scan", "links-mixed":
+	case "model", "model-untracked", "model-outcomes", "model-halt", "model-exec", "lifecycle", "disk", "disk-untracked", "disk-halt", "disk-escape", "disk-lifecycle", "disk-edits", "disk-remote", "disk-fulldev", "disk-exec", "links-scan", "links-mixed":
 		return execSession(t, plan)
 	}
 	if r := execComponent(t, plan); r != nil {
